@@ -42,6 +42,35 @@ type LossCase struct {
 	A2Mask  uint32     `json:"a2_mask,omitempty"`
 	Garbage []Garbage  `json:"garbage"`
 	Seed    uint64     `json:"seed"` // selects the subsets when A has more than 10 packets
+	// HugeOpen: after A (and A2) a further fragment train of this many bytes is delivered whose end never arrives
+	// (a lost tail of a very large unit); only two subsets of A are then enumerated (none, all)
+	HugeOpen int `json:"huge_open,omitempty"`
+}
+
+// hugeOpenTrain feeds d a start fragment and continuation fragments (60000 bytes each, the last one shorter)
+// carrying exactly total bytes of unit data, never an end.
+func hugeOpenTrain(d depack, codec string, total int) {
+	chunk := make([]byte, 60002)
+	for i := range chunk {
+		chunk[i] = byte(i*7 + 1)
+	}
+	for sent := 0; sent < total; {
+		n := mini(60000, total-sent)
+		if codec == "av1" {
+			chunk[0], chunk[1] = 0xD0, 0x11 // Z=1 Y=1 W=1
+			if sent == 0 {
+				chunk[0], chunk[1] = 0x50, 0x30 // Z=0 Y=1 W=1, OBU_FRAME header
+			}
+			_, _ = d.Unmarshal(chunk[:1+n]) // aggregation header + n bytes of the OBU
+		} else {
+			chunk[0], chunk[1] = 0x7C, 0x05 // FU-A, middle fragment of a type-5 unit
+			if sent == 0 {
+				chunk[1] = 0x85 // start
+			}
+			_, _ = d.Unmarshal(chunk[:2+n])
+		}
+		sent += n
+	}
 }
 
 var subC15 = register("C15", "loss", checkC15)
@@ -210,6 +239,10 @@ func checkC15(r *run, c *LossCase) (CaseInfo, error) {
 		}
 		ci.class("drawn-subsets")
 	}
+	if c.HugeOpen > 0 {
+		masks = []uint32{0, 1<<uint(mini(nA, 31)) - 1}
+		ci.class("huge-abandoned-train")
+	}
 	openSubsets := 0
 	for _, m := range masks {
 		d := newDepack(c.Codec)
@@ -229,6 +262,10 @@ func checkC15(r *run, c *LossCase) (CaseInfo, error) {
 			}
 		}
 		open := opensTrain(c.Codec, a, m)
+		if c.HugeOpen > 0 {
+			hugeOpenTrain(d, c.Codec, c.HugeOpen)
+			open = true
+		}
 		if open {
 			openSubsets++
 		}
@@ -338,6 +375,14 @@ func genLossCase(t *rapid.T) *LossCase {
 		c.A2 = &a2
 		c.A2Mask = rapid.Uint32().Draw(t, "a2mask")
 	}
+	if rapid.IntRange(0, 59).Draw(t, "hugeopen") == 0 {
+		// just below a round size (a reassembly limit would sit at one): 2^k - d bytes buffered
+		k := rapid.SampledFrom([]int{20, 21, 22, 23, 24}).Draw(t, "hugeopenlog")
+		if c.Codec == "av1" {
+			k = rapid.SampledFrom([]int{18, 19, 20, 21}).Draw(t, "hugeopenlogav1") // the AV1 depacketizer re-copies its buffer per fragment
+		}
+		c.HugeOpen = 1<<uint(k) - rapid.SampledFrom([]int{0, 0, 1, 2, 3, 100}).Draw(t, "hugeopendelta")
+	}
 	ng := rapid.SampledFrom([]int{0, 0, 1, 1, 2, 5}).Draw(t, "ngarbage")
 	var aPkts [][]byte
 	if ng > 0 {
@@ -373,10 +418,10 @@ func genLossCase(t *rapid.T) *LossCase {
 	return c
 }
 
-const ruleC15 = "rapid draws (codec in {H264Packet Annex-B, H264Packet AVC, AV1Depacketizer}, frame A with at least one fragmented unit packetised by the library's payloader or an independent encoder (AV1: W=0 and counted forms, up to three elements per packet, fragments cut anywhere; H264: also empty fragments and, for units that fit, single FU-As carrying S and E together), optionally a second lossy frame delivered under a drawn mask, frame B of any shape (sometimes starting with an SPS/PPS pair), 0-5 garbage inputs - random strings, stray continuation fragments or damaged copies of A's own packets - interleaved at drawn positions before, inside and after A and always delivered); for A of up to 10 packets ALL 2^n delivery subsets are enumerated in order (1024 drawn subsets beyond that), each followed by the complete frame B; oracle: for every packet of B the output bytes, error-ness and AV1 Z/Y/N of the used receiver equal those of a fresh receiver fed B only. Non-trivial = case in which some subset leaves a fragment train open (start delivered, end lost) and B contains a fragmented unit; evaluations count cases plus enumerated subsets; distinct = FNV-64 of the JSON case"
+const ruleC15 = "rapid draws (codec in {H264Packet Annex-B, H264Packet AVC, AV1Depacketizer}, frame A with at least one fragmented unit packetised by the library's payloader or an independent encoder (AV1: W=0 and counted forms, up to three elements per packet, fragments cut anywhere; H264: also empty fragments and, for units that fit, single FU-As carrying S and E together), optionally a second lossy frame delivered under a drawn mask, frame B of any shape (sometimes starting with an SPS/PPS pair), 0-5 garbage inputs - random strings, stray continuation fragments or damaged copies of A's own packets - interleaved at drawn positions before, inside and after A and always delivered; one case in 60 additionally delivers an end-less fragment train holding 2^k - {0,1,2,3,100} bytes (k 20-24; AV1 18-21) right before B); for A of up to 10 packets ALL 2^n delivery subsets are enumerated in order (1024 drawn subsets beyond that), each followed by the complete frame B; oracle: for every packet of B the output bytes, error-ness and AV1 Z/Y/N of the used receiver equal those of a fresh receiver fed B only. Non-trivial = case in which some subset leaves a fragment train open (start delivered, end lost) and B contains a fragmented unit; evaluations count cases plus enumerated subsets; distinct = FNV-64 of the JSON case"
 
 func TestC15(t *testing.T) {
 	r := begin(t, "C15", "fault_enumeration", ruleC15)
 	defer r.finish()
-	subC15.rapidRun(r, n(1500, 36000), genLossCase)
+	subC15.rapidRun(r, n(1000, 30000), genLossCase)
 }
